@@ -11,7 +11,7 @@
      out:    <id> OK <n replies compared>
            | <id> MISMATCH conn=<c> model=<replies> observed=<replies> leftover=<hex>
            | <id> ERR <text>
-     For every RECV line the bytes are decoded with decode_stream and compared (queue_match:
+     For every RECV line the bytes are decoded with decode_stream and compared (observed_match:
      literally, except for the integer inside a SUBSCRIBE confirmation) with the model's
      output queue of that connection after running the operations from the empty state.
 
@@ -62,7 +62,7 @@ let seq infile outfile =
              let (obs, left) = decode_stream (bytes_field h) in
              let model = outq st (conn_field c) in
              n := !n + List.length model;
-             if not (left = [] && queue_match model obs) then
+             if not (left = [] && observed_match model obs) then
                bad := Some (Printf.sprintf "conn=%s model=%s observed=%s leftover=%s" c
                               (replies_text model) (replies_text obs) (hexb left))
            end) (List.rev !recvs);
